@@ -1,6 +1,6 @@
 CFG = dict(
     theorems=["C06.implEval_eq_sqlEval_partial", "C06.implEval_exact", "C06.implEval_condition", "C06.implEval_eq_sqlEval_fails",
-              "C06.value_modes_agree", "C06.paren_transparent", "C06.null_propagates_arith", "C06.missing_is_null",
+              "C06.parser_covers_grammar", "C06.value_modes_agree", "C06.paren_transparent", "C06.null_propagates_arith", "C06.missing_is_null",
               "C06.null_compare_not_true", "C06.case_first_true", "C06.case_else_null", "C06.sql_case_else_null",
               "C06.where_eq_sqlEval_partial", "C06.where_eq_sqlEval_fails", "C06.bridge_sound_nonnull",
               "C06.engine_select_sound", "C06.engine_select_nonnull", "C06.engine_select_handfirst",
